@@ -149,8 +149,16 @@ def consistency(g, label: str = "consistency") -> None:
         rw, rp, nonaff = gcp_residual(g)
         res = max(abs(g.resolution.x), abs(g.resolution.y))
         # judged in the pixel space of the control points (the box's own pixels may be zoomed)
-        Ap = M3(Affine(*aff_of(g)))[:2, :2]
-        err_map_px = float(np.abs((Ap @ (back - probes).T)).max())
+        A3 = M3(Affine(*aff_of(g)))
+        Ap = A3[:2, :2]
+        # only probes inside the hull of the control points: outside it the two fitted polynomials extrapolate independently
+        pm = (A3 @ np.c_[probes, np.ones(len(probes))].T)[:2].T
+        cp = g._mapping._pix
+        inside = (pm[:, 0] >= cp[:, 0].min()) & (pm[:, 0] <= cp[:, 0].max()) & (pm[:, 1] >= cp[:, 1].min()) & (pm[:, 1] <= cp[:, 1].max())
+        if not inside.any():
+            mon.skip(label + ".inverse", "GCP box lies outside the hull of its control points")
+            inside = None
+        err_map_px = float(np.abs((Ap @ (back - probes).T))[:, inside].max()) if inside is not None else 0.0
         tol_px = 1e-6 * max(nx, ny, 64) + 20 * (rp + rw / res) + 0.5 * nonaff
         ok = bool(np.isfinite(W_lib).all()) and err_map_px <= tol_px
         mon.obs["gcp_exactly_affine" if nonaff < 1e-6 else "gcp_non_affine"] += 1
@@ -230,7 +238,8 @@ def covers(point, src, res, params) -> None:
     C = at(src, np.array([[0, 0], [nx, 0], [0, ny], [nx, ny]], dtype="float64"))
     P = np.linalg.solve(M3(res.affine), np.c_[C, np.ones(4)].T)[:2].T
     rny, rnx = res.shape
-    tol = 1e-6 * max(1.0, float(np.abs(P).max()))
+    px = math.sqrt(abs(np.linalg.det(M3(res.affine)[:2, :2])))
+    tol = 1e-6 * max(1.0, float(np.abs(P).max())) + 64 * math.ulp(max(1.0, float(np.abs(C).max()))) / px
     ok = P[:, 0].min() >= -tol and P[:, 1].min() >= -tol and P[:, 0].max() <= rnx + tol and P[:, 1].max() <= rny + tol
     _mon.check(bool(ok), point + ".covers", lambda: {"op": point, "source": desc(src), "params": params, "result": desc(res), "source_corners_in_result_px": P}, key=f"{point}-does-not-cover", cls=fam_of(src))
 
